@@ -1,5 +1,195 @@
-"""Contracts on Evaluator rule methods (stub; filled in below)."""
+"""Contracts on Evaluator rule methods.
+
+A rule method is verified on a *mock node*: a lark.Tree whose children are stub sub-trees carrying an arbitrary
+(symbolic) Result -- the induction hypothesis "visiting a child returns a Result and raises nothing".  lark's own
+Interpreter / Tree source is executed symbolically too (not modelled by hand); only the visit of a stub child is
+intercepted.  The same shape is rebuilt natively (real lark.Tree, real Evaluator subclass with a `stub` rule) for
+the CPython cross-check and for counterexample replay.
+"""
+import lark
+import lark.tree
+import lark.visitors
+import z3
+
+import celpy.celtypes as ct
+import celpy.evaluation as ev
+from contracts.specs import *
+from pyvc import verify as V
+from pyvc import symexec as se
+from pyvc.values import VInt, VFloat, VStr, VTok, VObj, VList, VDict, VNative, VTuple, NONE, RNE
+
+
+# ------------------------------------------------------------------ shapes
+class STUB:
+    def __init__(self, arg):
+        self.arg = arg
+
+
+class TOK:
+    def __init__(self, type_, value):
+        self.type, self.value = type_, value
+
+
+def sym_meta(run, name):
+    return VObj(lark.tree.Meta, {"line": VInt(int, run.fresh_int(name + ".line")),
+                                 "column": VInt(int, run.fresh_int(name + ".col")), "empty": se.lift(False)})
+
+
+def sym_tree(run, shape, S, path="t"):
+    if isinstance(shape, STUB):
+        r = getattr(S, shape.arg)
+        return VObj(lark.Tree, {"data": VStr(str, "stub"), "children": VList(list, [r]),
+                                "_meta": sym_meta(run, path), "$result": r}, label=f"stub:{shape.arg}")
+    if isinstance(shape, TOK):
+        val = getattr(S, shape.value[1:]) if shape.value.startswith("$") else VStr(str, shape.value)
+        return VTok(lark.Token, val.t, {"type": VStr(str, shape.type), "value": VStr(str, val.t),
+                                        "line": VInt(int, 1), "column": VInt(int, 1)})
+    data, children = shape
+    return VObj(lark.Tree, {"data": VStr(str, data),
+                            "children": VList(list, [sym_tree(run, c, S, f"{path}.{i}") for i, c in enumerate(children)]),
+                            "_meta": sym_meta(run, path)}, label=data)
+
+
+def nat_meta():
+    m = lark.tree.Meta()
+    m.line, m.column, m.empty = 1, 1, False
+    return m
+
+
+def nat_tree(shape, N):
+    if isinstance(shape, STUB):
+        return lark.Tree("stub", [N[shape.arg]], nat_meta())
+    if isinstance(shape, TOK):
+        v = N[shape.value[1:]] if shape.value.startswith("$") else shape.value
+        return lark.Token(shape.type, v, line=1, column=1)
+    data, children = shape
+    return lark.Tree(data, [nat_tree(c, N) for c in children], nat_meta())
+
+
+class StubEvaluator(ev.Evaluator):
+    """Real Evaluator plus one rule for stub children (returns the value stored in the stub)."""
+
+    def stub(self, tree):
+        return tree.children[0]
+
+
+def sym_activation(run, functions=None):
+    fdict = functions if functions is not None else ev.base_functions
+    pairs = [[VStr(str, k), se.lift(v)] for k, v in fdict.items()]
+    return VObj(ev.Activation, {"functions": VDict(dict, pairs), "package": NONE,
+                                "identifiers": VObj(ev.NameContainer, {"parent": NONE})}, label="activation")
+
+
+def sym_evaluator(run, functions=None):
+    act = sym_activation(run, functions)
+    return VObj(ev.Evaluator, {"activation": act, "base_activation": act, "level": VInt(int, 0),
+                               "ast": NONE}, label="evaluator")
+
+
+def _visit_tree_override(run, self, tree):
+    attrs = getattr(tree, "attrs", None)
+    if attrs is not None and "$result" in attrs:
+        run.ghost.setdefault("visited", []).append(tree)
+        return attrs["$result"]
+    return run.call_ast(run.engine.vfunc_of(lark.visitors.Interpreter._visit_tree), [self, tree], {})
+
+
+def install(engine):
+    engine.overrides[lark.visitors.Interpreter._visit_tree] = _visit_tree_override
+
+
+def rule_contract(method, shape, args, name, ret, exc=None, functions=None, **kw):
+    """Contract for Evaluator.<method> applied to a mock node of the given shape."""
+    def invoke(run, S):
+        install(run.engine)
+        S.self_ = sym_evaluator(run, functions)
+        S.tree_ = sym_tree(run, shape, S)
+        return run.call(run.getattr(S.self_, method), [S.tree_])
+
+    def native(N):
+        t = nat_tree(shape, N)
+        e = StubEvaluator(t, ev.Activation(functions=functions))
+        return getattr(e, method)(t)
+
+    return V.Contract(f"celpy.evaluation:Evaluator.{method}", args, name=name, invoke=invoke, native=native,
+                      ret=ret, exc=exc or {}, **kw)
+
+
+def is_error(r):
+    return isinstance(r, VObj) and issubclass(r.cls, ev.CELEvalError)
+
+
+# ------------------------------------------------------------------ C01: arithmetic rules
+I64 = V.IntDom(ct.IntType, I64_MIN, I64_MAX1, "int64")
+U64 = V.IntDom(ct.UintType, 0, U64_MAX1, "uint64")
+DBL = V.FloatDom(ct.DoubleType)
+KW = z3.Int("k_witness")
+
+
+def _int_outcome(cls, inr, exact):
+    """exact result wrapped in cls iff it fits, otherwise an error value; nothing raised."""
+    def ret(S, r):
+        e = exact(S.left.t, S.right.t)
+        if is_error(r):
+            return z3.Not(inr(e))
+        return z3.And(inr(e), is_int(r, cls, e))
+    return ret
+
+
+def _div_outcome(cls, inr):
+    def ret(S, r):
+        a, b = S.left.t, S.right.t
+        if is_error(r):
+            return z3.Or(b == 0, z3.And(a == I64_MIN, b == -1)) if cls is ct.IntType else (b == 0)
+        return (isinstance(r, VInt) and r.cls is cls) and z3.And(inr(r.t), tdiv_rel(a, b, r.t))
+    return ret
+
+
+def _mod_outcome(cls, inr):
+    def ret(S, r):
+        a, b = S.left.t, S.right.t
+        if is_error(r):
+            return b == 0
+        return (isinstance(r, VInt) and r.cls is cls) and z3.And(inr(r.t), z3.Exists([KW], tmod_rel(a, b, r.t, KW)))
+    return ret
+
+
+def _dbl_outcome(fn):
+    def ret(S, r):
+        e = fn(RNE, S.left.t, S.right.t)
+        return isinstance(r, VFloat) and z3.Or(z3.And(z3.fpIsNaN(r.t), z3.fpIsNaN(e)), r.t == e)
+    return ret
 
 
 def c01_rule_contracts():
-    return []
+    cs = []
+    for cls, dom, inr, tag in ((ct.IntType, I64, in_i64, "int"), (ct.UintType, U64, in_u64, "uint")):
+        a2 = [("left", dom), ("right", dom)]
+        for op, fn in (("addition_add", lambda a, b: a + b), ("addition_sub", lambda a, b: a - b)):
+            cs.append(rule_contract("addition", ("addition", [(op, [STUB("left")]), STUB("right")]), a2,
+                                    f"Evaluator.addition[{op}]({tag},{tag})", _int_outcome(cls, inr, fn)))
+        cs.append(rule_contract("multiplication", ("multiplication", [("multiplication_mul", [STUB("left")]), STUB("right")]),
+                                a2, f"Evaluator.multiplication[multiplication_mul]({tag},{tag})",
+                                _int_outcome(cls, inr, lambda a, b: a * b)))
+        cs.append(rule_contract("multiplication", ("multiplication", [("multiplication_div", [STUB("left")]), STUB("right")]),
+                                a2, f"Evaluator.multiplication[multiplication_div]({tag},{tag})", _div_outcome(cls, inr)))
+        cs.append(rule_contract("multiplication", ("multiplication", [("multiplication_mod", [STUB("left")]), STUB("right")]),
+                                a2, f"Evaluator.multiplication[multiplication_mod]({tag},{tag})", _mod_outcome(cls, inr)))
+    cs.append(rule_contract("unary", ("unary", [("unary_neg", []), STUB("right")]), [("right", I64)],
+                            "Evaluator.unary[unary_neg](int)",
+                            lambda S, r: (S.right.t == I64_MIN) if is_error(r) else
+                            z3.And(S.right.t != I64_MIN, is_int(r, ct.IntType, -S.right.t))))
+    cs.append(rule_contract("unary", ("unary", [("unary_neg", []), STUB("right")]), [("right", U64)],
+                            "Evaluator.unary[unary_neg](uint)", lambda S, r: is_error(r)))
+    cs.append(rule_contract("unary", ("unary", [("unary_neg", []), STUB("right")]), [("right", DBL)],
+                            "Evaluator.unary[unary_neg](double)",
+                            lambda S, r: isinstance(r, VFloat) and z3.Or(
+                                z3.And(z3.fpIsNaN(r.t), z3.fpIsNaN(S.right.t)), r.t == z3.fpNeg(S.right.t))))
+    d2 = [("left", DBL), ("right", DBL)]
+    for meth, op, fn in (("addition", "addition_add", z3.fpAdd), ("addition", "addition_sub", z3.fpSub),
+                         ("multiplication", "multiplication_mul", z3.fpMul), ("multiplication", "multiplication_div", z3.fpDiv)):
+        cs.append(rule_contract(meth, (meth, [(op, [STUB("left")]), STUB("right")]), d2,
+                                f"Evaluator.{meth}[{op}](double,double)", _dbl_outcome(fn)))
+    cs.append(rule_contract("multiplication", ("multiplication", [("multiplication_mod", [STUB("left")]), STUB("right")]), d2,
+                            "Evaluator.multiplication[multiplication_mod](double,double)", lambda S, r: is_error(r)))
+    return cs
